@@ -153,29 +153,50 @@ def run_z3_binary(smt2, timeout=10):
         return "unknown"
 
 
-def run_cvc5_wheel(smt2, timeout_ms=10000):
-    try:
-        import cvc5
+CVC5_SRC = r"""
+import sys
+import cvc5
+smt2 = open(sys.argv[1]).read()
+tm = cvc5.TermManager() if hasattr(cvc5, "TermManager") else None
+slv = cvc5.Solver(tm) if tm is not None else cvc5.Solver()
+slv.setOption("tlimit-per", sys.argv[2])
+slv.setLogic("QF_NRA")
+parser = cvc5.InputParser(slv)
+# z3 prints (set-info ...) and (check-sat); cvc5's parser takes the same text
+parser.setStringInput(cvc5.InputLanguage.SMT_LIB_2_6, smt2, "q")
+sm = parser.getSymbolManager()
+res = None
+while True:
+    cmd = parser.nextCommand()
+    if cmd.isNull():
+        break
+    o = str(cmd.invoke(slv, sm)).strip()
+    if o in ("sat", "unsat", "unknown"):
+        res = o
+print("RESULT", res or "unknown")
+"""
 
-        tm = cvc5.TermManager() if hasattr(cvc5, "TermManager") else None
-        slv = cvc5.Solver(tm) if tm is not None else cvc5.Solver()
-        slv.setOption("tlimit-per", str(timeout_ms))
-        slv.setLogic("QF_NRA")
-        parser = cvc5.InputParser(slv)
-        # z3 prints (set-info ...) and (check-sat); cvc5's parser takes the same text
-        parser.setStringInput(cvc5.InputLanguage.SMT_LIB_2_6, smt2, "q")
-        sm = parser.getSymbolManager()
-        res = None
-        while True:
-            cmd = parser.nextCommand()
-            if cmd.isNull():
-                break
-            out = cmd.invoke(slv, sm)
-            o = str(out).strip()
-            if o in ("sat", "unsat", "unknown"):
-                res = o
-        return res or "unknown"
-    except Exception:  # noqa
+
+def run_cvc5_wheel(smt2, timeout_ms=10000):
+    """cvc5 1.4.0 (the wheel) in a sub-process with a hard kill: its time limit is cooperative too, and the Cython binding keeps
+    the GIL while solving, so an in-process call that ignores the limit cannot even be interrupted by the watchdog thread
+    (seen: shards of a thorough C03 run spinning for an hour)."""
+    import sys
+
+    try:
+        with tempfile.NamedTemporaryFile("w", suffix=".smt2", delete=False, dir="/var/tmp") as f:
+            f.write(smt2)
+            path = f.name
+        try:
+            out = subprocess.run([sys.executable, "-c", CVC5_SRC, path, str(int(timeout_ms))], capture_output=True, text=True,
+                                 timeout=timeout_ms / 1000.0 + 10).stdout
+        finally:
+            os.unlink(path)
+        for ln in out.splitlines():
+            if ln.startswith("RESULT "):
+                return ln.split()[1]
+        return "unknown"
+    except Exception:  # noqa  (incl. TimeoutExpired)
         return "unknown"
 
 
